@@ -39,7 +39,7 @@ def classify_under(root, mode):
         try:
             cls = getattr(mt, ENTRY[0])
             if B.Ctx.replay:
-                text = B.render(root)
+                text = B.doc_text(root)
                 B.Ctx.docs.append(text)
                 obj = cls.from_string(text)
             else:
